@@ -14,6 +14,11 @@ C_FUNCS = [
     ("tables.c", "tsk_table_collection_check_mutation_integrity"),
     ("tables.c", "tsk_table_collection_check_migration_integrity"),
     ("tables.c", "tsk_table_collection_check_individual_integrity"),
+    ("tables.c", "tsk_table_collection_has_index"),
+    ("tables.c", "tsk_table_collection_check_index_integrity"),
+    ("tables.c", "tsk_table_collection_check_offsets"),
+    ("tables.c", "tsk_table_collection_check_tree_integrity"),
+    ("tables.c", "tsk_table_collection_check_integrity"),
 ]
 UNVERIFIED = []
 TRUSTED = []
